@@ -15,7 +15,7 @@ from vlib import sh, log
 
 class Ref:
     def __init__(self):
-        self.kv, self.li, self.ha, self.se = {}, {}, {}, {}
+        self.kv, self.li, self.ha, self.se, self.pf, self.zs = {}, {}, {}, {}, {}, {}
 
     def copy(self):
         r = Ref()
@@ -23,6 +23,8 @@ class Ref:
         r.li = {k: list(v) for k, v in self.li.items()}
         r.ha = {k: dict(v) for k, v in self.ha.items()}
         r.se = {k: set(v) for k, v in self.se.items()}
+        r.pf = {k: set(v) for k, v in self.pf.items()}
+        r.zs = {k: dict(v) for k, v in self.zs.items()}
         return r
 
     def apply(self, cmd):
@@ -50,6 +52,54 @@ class Ref:
             new = cmd[2] not in s
             s.add(cmd[2])
             return ":%d" % (1 if new else 0)
+        if c == "pfadd":
+            # elements come from a fixed universe of 16 strings: in the sparse HLL++ representation the count is exact
+            s = self.pf.setdefault(k, set())
+            new = cmd[2] not in s
+            s.add(cmd[2])
+            return ":%d" % (1 if new else 0)
+        if c == "zadd":
+            z = self.zs.setdefault(k, {})
+            new = cmd[3] not in z
+            z[cmd[3]] = int(cmd[2])
+            return ":%d" % (1 if new else 0)
+        if c == "del":
+            if k in self.kv:
+                del self.kv[k]
+                return ":1"
+            return ":0"
+        if c == "lpop":
+            l = self.li.get(k)
+            if not l:
+                return "nil"
+            v = l.pop(0)
+            if not l:
+                del self.li[k]
+            return "$" + v
+        if c == "hdel":
+            h = self.ha.get(k)
+            if h is None or cmd[2] not in h:
+                return ":0"
+            del h[cmd[2]]
+            if not h:
+                del self.ha[k]
+            return ":1"
+        if c == "srem":
+            s = self.se.get(k)
+            if s is None or cmd[2] not in s:
+                return ":0"
+            s.discard(cmd[2])
+            if not s:
+                del self.se[k]
+            return ":1"
+        if c == "zrem":
+            z = self.zs.get(k)
+            if z is None or cmd[2] not in z:
+                return ":0"
+            del z[cmd[2]]
+            if not z:
+                del self.zs[k]
+            return ":1"
         raise ValueError("unknown command %r" % (cmd,))
 
     def dump(self):
@@ -62,6 +112,10 @@ class Ref:
             out.append("H %s [%s]" % (k, ",".join(sorted("$%s=$%d" % (f, n) for f, n in v.items()))))
         for k, v in self.se.items():
             out.append("S %s [%s]" % (k, ",".join(sorted("$" + x for x in v))))
+        for k, v in self.pf.items():
+            out.append("P %s :%d" % (k, len(v)))
+        for k, v in self.zs.items():
+            out.append("Z %s [%s]" % (k, ",".join(sorted("$%s=$%d" % (m, sc) for m, sc in v.items()))))
         return sorted(out)
 
 
@@ -130,7 +184,9 @@ def oracle_dir(runs):
                     if status != "ack" and not inc[i]:
                         continue
                     rep = st.apply(cmd)
-                    if status == "ack" and rep != reply:
+                    # PFADD's reply ("a register changed") depends on the HLL representation in memory, not only on
+                    # the set of elements: it is not part of the state and is not compared
+                    if status == "ack" and rep != reply and cmd[0] != "pfadd":
                         good = False
                         break
                 if not good:
@@ -146,7 +202,7 @@ def oracle_dir(runs):
             for cmd, status, reply in pending:
                 if status == "ack":
                     rep = st.apply(cmd)
-                    if rep != reply and badreply is None:
+                    if rep != reply and badreply is None and cmd[0] != "pfadd":
                         badreply = dict(cmd=cmd, reply=reply, reference=rep)
             st.apply(mk["cmd"])
             fails.append(dict(name="state-d%d-r%d" % (r["dir"], r["run"]),
